@@ -17,6 +17,9 @@ type c13run struct {
 	cap   int
 	muted bool
 	next  int
+	// a stack that served as the source of MakeFromSequence must stay what it was
+	src     col.StackLike[int]
+	srcWant string
 }
 
 func (r *c13run) observe(after string) {
@@ -54,7 +57,7 @@ func (r *c13run) observe(after string) {
 func (r *c13run) construct(rng *core.Rng) bool {
 	S := col.Stack[int](Notation)
 	def := int(S.DefaultCapacity())
-	how := rng.Intn(5)
+	how := rng.Intn(6)
 	n := rng.Intn(2*def + 2) // 0 .. 2*default+1
 	if rng.Chance(1, 2) {
 		n = rng.Intn(6)
@@ -84,9 +87,15 @@ func (r *c13run) construct(rng *core.Rng) bool {
 			}
 			r.cap = -1
 		}
-	case 2, 3, 4:
+	case 2, 3, 4, 5:
 		var seq col.Sequential[int]
-		if how == 2 {
+		if how == 5 {
+			// another stack as the source: the two must not share anything afterwards
+			src := S.MakeFromArray(vs)
+			r.src, r.srcWant = src, fmt.Sprint(vs)
+			r.Log("Stack.MakeFromSequence(stack %v)", vs)
+			pan, _, msg = Try(func() { r.real = S.MakeFromSequence(src) })
+		} else if how == 2 {
 			r.Log("Stack.MakeFromArray(%v)", vs)
 			pan, _, msg = Try(func() { r.real = S.MakeFromArray(vs) })
 		} else {
@@ -171,6 +180,13 @@ func (r *c13run) step(rng *core.Rng) {
 		return
 	}
 	r.observe(op)
+	if r.src != nil && !r.Failed {
+		r.Guard(op, func() {
+			if got := fmt.Sprint(r.src.AsArray()); got != r.srcWant {
+				r.Fail(op+"/constructor-argument-changed", "the stack passed to MakeFromSequence changed: now %s, was %s", got, r.srcWant)
+			}
+		})
+	}
 	out := "ok"
 	if !returned {
 		out = "panic"
